@@ -37,7 +37,7 @@ import (
 )
 
 func init() {
-	register(&Prop{ID: "C23", Module: "V.C23.Check", Gen: c23Gen, Quick: 150, Thorough: 3000, Shard: 11})
+	register(&Prop{ID: "C23", Module: "V.C23.Check", Gen: c23Gen, Quick: 120, Thorough: 3000, Shard: 9})
 }
 
 var c23Ruler *textmeasure.Ruler
@@ -136,12 +136,12 @@ func c23EdgePos(e *d2graph.Edge) int {
 // ---------------------------------------------------------------- snapshot of the layout's input
 
 type c23Snap struct {
-	actors, notes, spans, groups []*d2graph.Object
-	msgs                         []*d2graph.Edge
-	coqInput                     string
-	objsIn, objsOut, msgsIn, msgsOut string
+	actors, notes, spans, groups            []*d2graph.Object
+	msgs                                    []*d2graph.Edge
+	coqInput                                string
+	objsIn, objsOut, msgsIn, msgsOut        string
 	nActors, nMsgs, nSpans, nNotes, nGroups int
-	maxSameLine                  int
+	maxSameLine                             int
 }
 
 func c23Snapshot(g *d2graph.Graph) *c23Snap {
